@@ -44,8 +44,9 @@ func TestVerifC11Send(t *testing.T) {
 			var descs []string
 			for r := 0; r < rounds; r++ {
 				orig := c11Gen(c, limit, c.Range(1, 25))
-				if orig.Size() == 0 {
-					// the generator may draw an RPC with nothing in it; sending that is not a split
+				if orig.Size() == 0 || len(c11Content(orig)) == 0 {
+					// the generator may draw an RPC with nothing in it (no bytes at all, or an empty control block); sending
+					// that is not a split, and "no empty RPC is produced" is about what the splitter makes of content
 					continue
 				}
 				w0 := pup.WireLen()
@@ -77,7 +78,7 @@ func TestVerifC11Send(t *testing.T) {
 					}
 					el := c11Content(w.RPC)
 					if len(el) == 0 {
-						c.Violatef(map[string]string{"kind": "empty_on_wire"}, "RPC without content reached the wire (size %d)", w.Size)
+						c.Violatef(map[string]string{"kind": "empty_on_wire"}, "RPC without content reached the wire (size %d, frame %v); limit=%d urgent=%v original (size %d): %s", w.Size, w.RPC, limit, urgent, origSize, origDesc)
 					}
 					for _, e := range el {
 						got[e.kind+"|"+e.key]++
